@@ -321,7 +321,8 @@ def check(pid, tier):
         os.remove(old)
 
     violations = []   # dicts: {source, what, replay_payload, concrete}
-    undecided = []
+    undecided = []    # hard: guards, harness cannot run -> exit 2
+    soft = []         # part of the proof could not be attached to / accepted for the changed code -> reported, exit 0
     known_hits = []
     kf = known_findings()
 
@@ -335,13 +336,13 @@ def check(pid, tier):
             e1_fns = [f for f in r1["fns"] if pid in f["tags"]]
             if r1["status"] == "rejected":
                 for rj in r1["rejected"][:5]:
-                    undecided.append("verus rejected the unit: %s (%s)" % (rj["message"], (rj.get("primary") or {}).get("file")))
+                    soft.append("verus rejected the unit, no E1 obligation was decided: %s (%s)" % (rj["message"], (rj.get("primary") or {}).get("file")))
             if not r1["canary_failed"] and r1["status"] == "ok":
                 undecided.append("vacuity guard: the canary `ensures false` was NOT refuted (inconsistent trusted layer?)")
             for l in r1["lost"]:
                 m = re.search(r"\[tags=([^\]]*)\]", l)
                 if m and pid in m.group(1).split(","):
-                    undecided.append(l)
+                    soft.append(l)
             for f in r1["failures"]:
                 if pid in f["tags"]:
                     violations.append({"source": "E1/verus", "what": "%s::%s %s — %s" % (f["file"], f["item"], f["fn"], f["message"]),
@@ -359,7 +360,7 @@ def check(pid, tier):
             n_err = (v["summary"].get("verification-results", {}) or {}).get("errors")
             stab.append({"smt_seed": sd, "errors": n_err, "wall_s": round(v["wall_s"], 1)})
             if n_err is None or n_err != r1["verus"].get("errors"):
-                undecided.append("proof instability: SMT seed %d gives %s errors, the default run %s" % (sd, n_err, r1["verus"].get("errors")))
+                soft.append("proof instability: SMT seed %d gives %s errors, the default run %s" % (sd, n_err, r1["verus"].get("errors")))
         r1["stability"] = stab
 
     # ---------------- E3 (Kani)
@@ -417,7 +418,11 @@ def check(pid, tier):
         lines.append("VIOLATION property=%s replay=%s%s" % (pid, path, suffix))
         log("   violated: [%s] %s" % (vv["source"], vv["what"]))
 
-    ev = build_evidence(pid, spec, tier, seed, r1, r2, r3, e1_fns, n_viol, undecided, known_hits, wall, unit_dir)
+    # a unit that Verus rejected as a whole is only tolerable if the bounded replay could run
+    if r1 is not None and r1["status"] == "rejected" and (r2 is None or r2.get("status") != "ok"):
+        undecided.extend(soft)
+        soft = []
+    ev = build_evidence(pid, spec, tier, seed, r1, r2, r3, e1_fns, n_viol, undecided + soft, known_hits, wall, unit_dir)
     json.dump(ev, open(os.path.join(OUT, "evidence", pid + ".json"), "w"), indent=1, default=str)
 
     for ln in lines:
@@ -430,6 +435,10 @@ def check(pid, tier):
             print("UNDECIDED: " + u[:500])
         print("vx: %s undecided (machinery could not decide; not a verdict); %.1fs" % (pid, wall))
         return 2
+    for u in soft:
+        print("UNDECIDED (partial): " + u[:500])
+    if soft:
+        print("vx: %s: no violation found, but %d part(s) of the proof could not be attached to this tree (listed above and in the evidence)" % (pid, len(soft)))
     print("vx: %s holds: E1 %d/%d clauses in %d functions, E2 %s cases, E3 %s; %.1fs" % (
         pid, ev["coverage"]["discharged"], ev["coverage"]["obligations"], len(e1_fns),
         ev["coverage"].get("bounded_cases", 0), ev["coverage"].get("kani_harnesses", 0), wall))
@@ -438,7 +447,8 @@ def check(pid, tier):
 
 def build_evidence(pid, spec, tier, seed, r1, r2, r3, e1_fns, n_viol, undecided, known_hits, wall, unit_dir):
     assumed_fns = [f for f in e1_fns if f["status"] == "assumed"]
-    e1_fns = [f for f in e1_fns if f["status"] != "assumed"]
+    demoted_fns = [f for f in e1_fns if f["status"] == "demoted"]
+    e1_fns = [f for f in e1_fns if f["status"] not in ("assumed", "demoted")]
     obligations = sum(f["clauses"] for f in e1_fns)
     discharged = sum(f["clauses"] for f in e1_fns if f["status"] == "verified")
     kani_h = []
@@ -457,6 +467,8 @@ def build_evidence(pid, spec, tier, seed, r1, r2, r3, e1_fns, n_viol, undecided,
                                       "clauses": f["clauses"], "status": f["status"], "backend": "verus"} for f in e1_fns],
         "assumed_contracts": [{"fn": "%s :: %s :: %s" % (f["file"], f["item"], f["fn"]), "clauses": f["clauses"],
                                "note": "external_body: the contract is assumed here (callers are verified against it); its content is covered by the bounded replay only"} for f in assumed_fns],
+        "undecided_functions": [{"fn": "%s :: %s :: %s" % (f["file"], f["item"], f["fn"]), "clauses": f["clauses"],
+                                 "note": "demoted on this tree (anchor lost or construct rejected): not verified, not counted"} for f in demoted_fns],
         "kani_harnesses": len(kani_h),
         "kani": kani_h,
         "undecided": undecided,
